@@ -2,7 +2,7 @@
   VotelibDriver.C14 — op `eval_tree`: decode a wrapper tree + call arguments, run `VL.C14.eval`,
   encode the nested result; also reports the model's hard-coded dispatch flags of every node
   (pre-order) so that the harness can cross-check them against votelib's accepts_seats /
-  accepts_prev_gains / accepts_max_seats on the live objects.
+  accepts_prev_gains / accepts_max_seats / seats_optional on the live objects.
 
   values:  "p/q" number | id candidate | {"tie":[ids]} | null | [..] list | {"dict":[[key, value],..]}
 -/
@@ -175,8 +175,8 @@ partial def decEv (j : Json) : Except String Ev := do
   | _ => throw s!"unknown node {k}"
 
 /-- dispatch flags of every node in pre-order (children in constructor order) -/
-partial def flags : Ev → List (Bool × Bool × Bool)
-  | e => (acceptsSeats e, acceptsPrevGains e, acceptsMaxSeats e) :: (match e with
+partial def flags : Ev → List (Bool × Bool × Bool × Bool)
+  | e => (acceptsSeats e, acceptsPrevGains e, acceptsMaxSeats e, seatsOptional e) :: (match e with
     | .leaf _ _ => []
     | .fixedSeatCount e _ => flags e
     | .tieBreaking m t => flags m ++ flags t
@@ -204,7 +204,7 @@ def handle (op : String) (j : Json) : Option (Except String Json) :=
     let a ← j.getObjVal? "args" >>= decArgs
     let fl := flags t
     pure (Json.mkObj [("res", encResult (eval t a)),
-                      ("flags", Json.arr (fl.map (fun p => Json.arr #[toJson p.1, toJson p.2.1, toJson p.2.2])).toArray)])
+                      ("flags", Json.arr (fl.map (fun p => Json.arr #[toJson p.1, toJson p.2.1, toJson p.2.2.1, toJson p.2.2.2])).toArray)])
   | "convert" => some do
     let c ← j.getObjVal? "conv" >>= decConv
     let v ← j.getObjVal? "value" >>= decV
